@@ -166,7 +166,15 @@ func corpus(c *sim.Ctx, big bool) [][]byte {
 				c.Fault("bit_flip_input")
 			}
 		}
-		out = append(out, b)
+		// the caller's slice has spare capacity holding other data (a capture
+		// ring, a reused read buffer): nothing behind len() belongs to the packet
+		tail := 1 + c.Draw(40)
+		buf := make([]byte, len(b)+tail)
+		copy(buf, b)
+		for k := len(b); k < len(buf); k++ {
+			buf[k] = byte(0xC3 + k*29 + i)
+		}
+		out = append(out, buf[:len(b)])
 	}
 	return out
 }
@@ -196,6 +204,12 @@ func signature(p gopacket.Packet) string {
 	}
 	if l := p.ApplicationLayer(); l != nil {
 		fmt.Fprintf(&sb, " app=%d", len(l.Payload()))
+	}
+	// checksum verification is part of what a decode "returns"
+	err, mm := p.VerifyChecksums()
+	fmt.Fprintf(&sb, " vc=%v/%d", err, len(mm))
+	for _, m := range mm {
+		fmt.Fprintf(&sb, "[%d %v %x/%x]", m.LayerIndex, m.Valid, m.Correct, m.Actual)
 	}
 	return sb.String()
 }
@@ -263,9 +277,11 @@ func simC02(c *sim.Ctx) {
 	}
 	// reference signatures, taken in a quiet state
 	ref := make([][4]string, len(inputs))
-	for i, b := range inputs {
+	for i := range inputs {
 		for k := 0; k < 4; k++ {
-			ref[i][k] = signature(gopacket.NewPacket(b, layers.LayerTypeEthernet, opts(k)))
+			// from a separate copy of the same bytes: what lies behind len() of
+			// the caller's slice must not matter
+			ref[i][k] = signature(gopacket.NewPacket(pristine[i], layers.LayerTypeEthernet, opts(k)))
 		}
 	}
 	s := coop.New(c)
@@ -382,7 +398,7 @@ func simC04(c *sim.Ctx) {
 	refsig := make([]string, len(inputs))
 	for i, b := range inputs {
 		orig[i] = append([]byte(nil), b...)
-		refsig[i] = signature(gopacket.NewPacket(b, layers.LayerTypeEthernet, gopacket.Default))
+		refsig[i] = signature(gopacket.NewPacket(orig[i], layers.LayerTypeEthernet, gopacket.Default))
 	}
 	s := coop.New(c)
 	nw := 2 + c.Weighted(2, 2, 1)
